@@ -133,6 +133,23 @@ fn feedback_families_x(th: bool, last_pos: &[Op], oracles: Vec<Oracle>, full: bo
     pc.extend(depth1(last_pos));
     pc.extend(connectable_pipelines(false));
     fams.push((Family { name: "user code inside Item::clone pushes into the source during the delivery".into(), pipelines: pc, worlds: Arc::new(wc), oracles: oracles.clone() }, 1));
+    // a callback of the subscriber panics at its 1st / 2nd item; whoever called next() catches the unwinding
+    // and the source goes on: what the subscriber sees before and after still obeys the contract (a panic is
+    // not a notification: the library must not turn it into half of one)
+    let mut wp = vec![];
+    for sc in wf_scripts(&[1, 2], 2, &[Ending::Complete, Ending::Error, Ending::Silent]) {
+      for trig in [Trig::Item(1), Trig::Item(2)] {
+        for k in [SrcKind::Hot, SrcKind::Subject, SrcKind::BehaviorSubject, SrcKind::ReplaySubject] {
+          let mut acts = vec![Act::PanicAt { outer: 0, trig }, Act::Sub(0)];
+          acts.extend(sc.iter().map(|e| Act::Emit(0, e.clone())));
+          acts.push(Act::Emit(0, Ev::n(3)));
+          wp.push(World { srcs: vec![k], acts });
+        }
+      }
+    }
+    let mut pp = vec![Node::Src(0)];
+    pp.extend(depth1(last_pos));
+    fams.push((Family { name: "a callback of the subscriber panics; the caller of next() catches it and the source goes on".into(), pipelines: pp, worlds: Arc::new(wp), oracles: oracles.clone() }, 1));
     // user code inside an operator's function: map's f (a predicate, an accumulator, a selector ...)
     // pushes a further event into the source before it returns its result
     let mut wf = vec![];
@@ -654,6 +671,16 @@ pub fn check(prop: &str, tier: &str) -> Option<Report> {
       }
       fams.extend(connectable_families(&w_noend, oracle.clone()));
       fams.extend(self_unsub_families(th, &last_pos, oracle.clone()));
+      if prop == "C05" {
+        // feedback: a callback pushes a further event into the source it is fed from - is_subscribed() still
+        // tells the truth (true until the subscriber has seen a terminal or unsubscribed; needs no reference)
+        for (f, d) in feedback_families(th, &last_pos, oracle.clone()) {
+          if f.name.starts_with("user code inside") || f.name.starts_with("a callback of the subscriber panics") {
+            continue;
+          }
+          fams.push((f, d));
+        }
+      }
       fams.extend(inner_unsub_families(th, oracle.clone()));
       // combining operators: unsubscribe at every position of every interleaving (2 hot sources)
       let mf = multi_families(false, false, oracle.clone());
@@ -1087,6 +1114,10 @@ pub fn c07_slice(r: &mut Report, tier: &str) {
   // callbacks that re-enter the library on the same thread: push into a source the pipeline is fed
   // from (either input of a combining operator), unsubscribe their own subscription, end an inner observable
   for (mut f, d) in feedback_families(th, &last_pos, vec![]).into_iter().chain(self_unsub_families(th, &last_pos, vec![])).chain(inner_unsub_families(th, vec![])) {
+    if f.name.starts_with("a callback of the subscriber panics") {
+      // C07's premise is "provided user callbacks return"
+      continue;
+    }
     if f.name.starts_with("user code inside") {
       // C07 speaks of (notification) callbacks that re-enter the library; an Item::clone or an operator's
       // function (an accumulator, a predicate, a selector) that does is C01's business only (the contract
